@@ -167,6 +167,8 @@ def run(tier: str, seed: int) -> int:
                     for b in boxes:
                         add(f"intersects_bounds{b}", "row", [tok(bool(v)) for v in A.intersects_bounds(b)], [tok(bool(v)) for v in X.intersects_bounds(b)],
                             J, info, inert=tok(False), fixed=1)
+                        add(f"intersects_bounds{b} inds=all", "row", [tok(bool(v)) for v in A.intersects_bounds(b, np.arange(len(A)))],
+                            [tok(bool(v)) for v in X.intersects_bounds(b, np.arange(len(X)))], J, info, inert=tok(False), fixed=1)
                     tb = (-10.0, -10.0, 10.0, 10.0)
                     add("hilbert_distance(tb)", "row", [tok(int(v)) for v in A.hilbert_distance(total_bounds=tb, p=7)],
                         [tok(int(v)) for v in X.hilbert_distance(total_bounds=tb, p=7)], J, info, inert=0, fixed=0)
@@ -180,6 +182,9 @@ def run(tier: str, seed: int) -> int:
                         for si, sh in enumerate(shapes):
                             add(f"intersects(shape{si})", "row", [tok(bool(v)) for v in A.intersects(sh)], [tok(bool(v)) for v in X.intersects(sh)],
                                 J, info, inert=tok(False), fixed=1)
+                            # the row-selection form (inds=), here selecting every row incl. the inert ones
+                            add(f"intersects(shape{si}, inds=all)", "row", [tok(bool(v)) for v in A.intersects(sh, np.arange(len(A)))],
+                                [tok(bool(v)) for v in X.intersects(sh, np.arange(len(X)))], J, info, inert=tok(False), fixed=1)
                     # selections: R-tree queries and cx with / without an index
                     for b in boxes[:3]:
                         ta, tx = A.copy().build_sindex(page_size=page, p=4).sindex, X.copy().build_sindex(page_size=page, p=4).sindex
